@@ -168,6 +168,10 @@ func (e routeEngine) Corpus() []Case {
 			// the name index: the latest registration under a name wins, whichever API; renaming keeps other routes' names
 			{Ops: []string{"new 0 0 -", regn(1, "n", "/a/{x}", 0), regn(2, "n", "/b/{x}", 1), "getroute " + hx("n"), "rename 1 " + hx("other"), "getroute " + hx("n"), "getroute " + hx("other"),
 				bq("n", kv("{x}", "1"), 0, 2), regn(3, " n ", "/c/{x}", 2), "getroute " + hx("n"), bq("missing", "-", 0, -1), regn(4, "  ", "/d", 0), "getroute " + hx("")}},
+			// a name that moves to another route (NamedTo = `rename`; AddNamed; a fresh registration): building WITHOUT arguments
+			// follows the name index at once, also when the same call was made before the move
+			{Ops: []string{"new 0 0 -", regn(1, "home", "/home", 0), regn(2, "start", "/start", 1), bq("home", "-", 1, 1), bq("home", "-", 0, 1), "rename 2 " + hx("home"),
+				"getroute " + hx("home"), bq("home", "-", 1, 2), bq("home", "-", 0, 2), regn(3, "home", "/third", 0), bq("home", "-", 1, 3), "rename 1 " + hx("home"), bq("home", "-", 2, 1)}, Tag: "corpus-renamed"},
 			// static named route, no arguments
 			{Ops: []string{"new 0 0 -", regn(1, "home", "/home", 0), bq("home", "-", 1, 1), bq("home", kv("q", "1"), 0, 1)}},
 			// K1 (known finding): the last value ends in white space or '/'
